@@ -8,7 +8,7 @@ LEAN_MODULES = ["LunaVerif.Props.C56", "LunaVerif.Props.C56Stream", "LunaVerif.P
                 "LunaVerif.Lemmas.C56StreamAny", "LunaVerif.Props.C56Uart", "LunaVerif.Props.C56Cdc",
                 "LunaVerif.Props.C56SpiBits", "LunaVerif.Lemmas.C56UartRank", "LunaVerif.Props.C56UartLive",
                 "LunaVerif.Props.C56UartMulti", "LunaVerif.Props.C56SpiProgress", "LunaVerif.Props.C56StreamLive",
-                "LunaVerif.Props.C56UartChain", "LunaVerif.Props.C56SpiPins", "LunaVerif.Props.C56StreamChain"]
+                "LunaVerif.Props.C56UartChain", "LunaVerif.Props.C56SpiPins", "LunaVerif.Props.C56StreamChain", "LunaVerif.Props.C56SpiChain"]
 DRIVER = "Driver/C56.lean"
 REQUIRED_THEOREMS = ["captures_depth_consecutive_samples", "readback_nth", "trigger_during_capture_ignored",
                      "pretrigger_delay", "stream_readout_exact", "stream_readout_complete",
@@ -23,7 +23,9 @@ REQUIRED_THEOREMS = ["captures_depth_consecutive_samples", "readback_nth", "trig
                      "uart_capture_chain_decoded", "uart_readout_duration_any", "uart_readout_within_any",
                      "bounded_step", "uart_capture_chain_total", "track_bits", "spi_readout_pins", "stream_capture_chain",
                      "stream_capture_chain_open", "stream_capture_nth", "stream_capture_chain_total", "cdc_capture_chain",
-                     "cdc_capture_chain_complete", "cdc_capture_chain_open", "cdc_output_prefix", "cdc_chain_output_prefix"]
+                     "cdc_capture_chain_complete", "cdc_capture_chain_open", "cdc_output_prefix", "cdc_chain_output_prefix",
+                     "quiet_run", "capture_holds", "window_words", "window_bits", "window_pins", "rounds_idle",
+                     "spi_capture_chain_words", "spi_capture_chain_bits", "spi_capture_chain_pins", "stale_window_example"]
 RULE = ("cases = (sample_depth in {1,2,5,32,100} (+3,4,7,8,16,33 thorough), samples_pretrigger 0..3, domain sync/usb, "
         "three captured signals of 1+8+5 bits) x pattern: triggers sparse / held high / bursts / random incl. during "
         "capture; inputs random every cycle or a counter; captured_sample_number sweeps and random reads, also while "
@@ -32,7 +34,9 @@ RULE = ("cases = (sample_depth in {1,2,5,32,100} (+3,4,7,8,16,33 thorough), samp
         "(always / 50% / 20% / long on-off bursts / 85%), several captures and read-outs per case; kind 2 = "
         "SyncSerialILA, depths {1,2,3,5,16} (+4,7,8,32 thorough) x the four SPI modes: a scripted SPI controller "
         "(random half periods 1-3 cycles) triggers, waits for the capture and reads depth-1 .. depth+2 words per "
-        "chip-select window, re-reads and re-captures; a quarter of the windows break the read-out conditions on "
+        "chip-select window, re-reads and re-captures (plus one multi-capture case per depth: three captures - two for depth "
+        ">= 16 - each read out twice, the re-read always complete: coverage tags p-judged-later-capture, p-judged-reread, "
+        "p-full-readout-later-capture, p-trigger-accepted-in-window); a quarter of the windows break the read-out conditions on "
         "purpose (trigger during the read-out, chip select dropped in mid-word, short chip-select gap) and are "
         "compared against the model only; kind 3 = AsyncSerialILA, depths {1,2,3,5} (+4,8 thorough) x divisors "
         "{1,2,3} (+5,7) x probe widths 1/14/24 bits (1/2/4 bytes per sample), the four trigger patterns (also during "
@@ -55,6 +59,17 @@ ASSUMPTIONS = ["sample_depth >= 1", "captured_sample_number < sample_depth (addr
                "spi_readout_words / spi_readout_bits: bits_per_word >= 4 (the class always uses >= 32), chip select active high (the class "
                "does not forward cs_idles_high), no trigger from the end of the capture to the end of the window, chip "
                "select low for at least 4 cycles before the window",
+               "spi_capture_chain_words / _bits / _pins: analyzer idle at the start (init_idle; kept by trigger-free cycles: "
+               "idle_quiet_run); the history is cut at the accepted triggers into rounds = trigger cycle, depth capture cycles "
+               "(anything on the pins, further triggers ignored), trigger-free cycles with ANY SPI activity (RoundsOK); the "
+               "window considered and its four chip-select-low lead-in cycles lie in the trigger-free part of its round; "
+               "bits_per_word >= 4, chip select active high, MSB first; _pins: sck rests before the window at the level it has "
+               "after a sampling edge",
+               "stream_capture_chain / cdc_capture_chain: wrapper idle at the start (WIdle: init_WIdle, stream_idle_prefix); "
+               "every piece of the history starts with a trigger, its continuation starts no new capture (noRetrigger) and "
+               "ends with the wrapper FSM idle (ChainOK; implied by 2*depth ready cycles per piece: ChainReady, "
+               "chainReady_ok) - i.e. the history is cut at the accepted triggers; _open: the last piece may end anywhere; "
+               "cdc_*: the FIFO oracle is Legal (in-order-queue contract), any interleaving of the two clocks",
                "stream_readout_exact: the trigger is seen in a wrapper-idle state (WIdle: holds at reset, is kept by idle "
                "cycles and re-established by every read-out: init_WIdle, idle_step, stream_readout_returns_idle)",
                "stream_readout_any / uart_readout_exact: after the hand-over cycle no NEW capture is started within the "
@@ -110,13 +125,18 @@ PARTIAL = ("the IntegratedLogicAnalyzer core and all three read-out wrappers are
            "a written word raises r_rdy after a bounded number of read-clock edges; (F4) neither domain is reset during "
            "operation. F1 / F2 are checked on every simulated two-clock trace of the real gateware (the model's ok "
            "output and the word comparison), F3 by the monitor's end-of-trace completeness check; none of them is proved "
-           "for the Gray-code implementation; (2) the SPI theorems consider one capture per history; whole-history multi-capture statements exist for the "
-           "UART wrapper (uart_capture_chain / uart_capture_chain_total) and for the StreamILA with and without clock-"
-           "domain crossing (stream_capture_chain / _open / _nth / _total, cdc_capture_chain / _open / _complete, "
-           "cdc_output_prefix: any number of captures, the history cut at the accepted triggers; the wrapper blocks "
-           "triggers during capture and read-out, so every buffer is sent completely before the next capture starts) (the "
-           "UART chain bound: the last capture followed by 10*divisor*(bytes_per_sample*(depth+1)+1) cycles, the bound of "
-           "uart_readout_within_any for a read-out starting from any reachable transmitter state)")
+           "for the Gray-code implementation; (2) multi-capture: whole-history statements now exist for all three wrappers (any number of captures, the "
+           "history cut at the accepted triggers): uart_capture_chain / _total; stream_capture_chain / _open / _nth / _total "
+           "and cdc_capture_chain / _open / _complete / cdc_output_prefix (the StreamILA blocks triggers during capture and "
+           "read-out, so every buffer is sent completely, in order, before the next capture can start: the read-out of "
+           "capture k is exactly capture k's frame); spi_capture_chain_words / _bits / _pins (SyncSerialILA: in the round of "
+           "capture k, every chip-select window preceded by four chip-select-low cycles - first read-out, re-read, read-out "
+           "after a partial or aborted one - returns capture k's samples, never capture k-1's). Not covered, by design of the "
+           "code and stated exactly: the SyncSerialILA does not block triggers during a read-out, so a window (or its four "
+           "lead-in cycles) that overlaps a capture reads the memory while it is overwritten and returns a mixture of the "
+           "old and the new capture (stale_window_example: a word latched before the trigger is still shifted out after "
+           "complete has risen again; co-simulated by the 'trigger during the read-out' windows); such a word was addressed "
+           "before the capture completed, so this is an observation about the wrapper, not a violation of C56")
 
 WIDTHS = [1, 8, 5]
 TOTAL = sum(WIDTHS)
@@ -153,6 +173,19 @@ def gen_cases(tier, rng):
                 out.append({"kind": 2, "depth": D, "pre": k % 4, "pol": mode >> 1, "phase": mode & 1,
                             "domain": "usb" if k % 5 == 4 else "sync", "seed": rng.u64(), "k": k})
                 k += 1
+        # multi-capture histories (spi_capture_chain_*): three captures (two for depth >= 16), each read out twice (read-out
+        # and re-read; the first one often partial), the conditions broken on purpose only in the first window of a round
+        for _ in range(pper):
+            mode = k % 4
+            out.append({"kind": 2, "depth": D, "pre": k % 4, "pol": mode >> 1, "phase": mode & 1, "multi": 1,
+                        "domain": "usb" if k % 5 == 4 else "sync", "seed": rng.u64(), "k": k})
+            k += 1
+    # the as-coded behaviour outside the theorems' hypotheses (Props/C56SpiChain.lean, stale_window_example): a trigger accepted in
+    # the first cycle of a chip-select window; compared with the model, not judged; tag p-stale-word-observed
+    for mode in range(4):
+        out.append({"kind": 2, "depth": 2, "pre": 1, "pol": mode >> 1, "phase": mode & 1, "stale_demo": 1,
+                    "domain": "sync", "seed": rng.u64(), "k": k})
+        k += 1
     # AsyncSerialILA (kind 3): UART read-out; probe widths 1 / 14 / 24 bits -> bytes_per_sample 1 / 2 / 4
     udepths = [1, 2, 3, 5] if tier != "thorough" else [1, 2, 3, 4, 5, 8]
     udivs = [1, 2, 3] if tier != "thorough" else [1, 2, 3, 5, 7]
@@ -449,7 +482,28 @@ def run_stream_case(desc):
 # SyncSerialILA: the captured samples read back over SPI
 # ---------------------------------------------------------------------------------------------------------------
 
-def make_spi_stimulus(D, p, pol, phase, rng, k):
+def make_stale_demo(pol, phase, rng):
+    """depth 2, pre-trigger 1: capture 1 (samples A0, A1), rest, then a chip-select window of two words in whose first cycle the
+    trigger of capture 2 (samples B0, B1) arrives: the controller reads A0 (latched before the trigger) and B1."""
+    sample_level = pol if phase else 1 - pol
+    a0, a1, b0, b1 = [rng.bits(TOTAL) for _ in range(4)]
+    rows = []
+
+    def emit(n, trig=0, inp=0x111, sck=sample_level, cs=0):
+        for _ in range(n):
+            rows.append([trig, inp, sck, 0, cs])
+    emit(3)
+    emit(1, trig=1, inp=a0)
+    emit(1, inp=a1)
+    emit(7)
+    for b in range(64):
+        emit(1, trig=int(b == 0), inp=b0 if b == 0 else 0x111, sck=1 - sample_level, cs=1)
+        emit(1, inp=b1 if b == 0 else 0x111, cs=1)
+    emit(6)
+    return rows
+
+
+def make_spi_stimulus(D, p, pol, phase, rng, k, multi=0):
     """A scripted SPI controller: trigger, wait for the capture, read N words of 32 bits in one chip-select window
     (clock idle such that the first edge is the device's output edge), optionally re-read / re-capture.  Some cases
     break the environment assumptions on purpose (trigger during the read-out, chip select dropped in mid-word,
@@ -490,14 +544,20 @@ def make_spi_stimulus(D, p, pol, phase, rng, k):
 
     emit(rng.range(2, 6))
     rounds = 1 if D >= 16 else rng.range(1, 3)
+    if multi:
+        rounds = 2 if D >= 16 else 3
     for r in range(rounds):
         capture(noisy=rng.chance(50))
         nwin = 1 if D >= 16 else rng.range(1, 2)
+        if multi:
+            nwin = 2
         for w in range(nwin):
             dirty = None
-            if rng.chance(25):
+            if rng.chance(25) and not (multi and w > 0):
                 dirty = rng.choice(["abort", "trigger", "shortgap"])
             nwords = rng.choice([D, D, D + 1, D + 2, max(1, D - 1), max(1, D // 2)])
+            if multi and w > 0:
+                nwords = D
             window(nwords, 1 if rng.chance(60) else rng.range(1, 3), dirty)
             emit(rng.range(1, 3) if dirty == "shortgap" else rng.range(4, 8))
             if dirty == "trigger":
@@ -531,7 +591,9 @@ def monitor_spi(D, p, pol, phase, stim, rows):
     mem_at = [None] * L           # snapshot id of the memory (list) valid during cycle t
     cur = list(mem)
     captures = 0
+    cap_at = [0] * L              # number of captures started up to cycle t
     for t in range(L):
+        cap_at[t] = captures
         trig = stim[t][0] & 1
         busy = start is not None and start <= t < start + D
         if rows[t][0] != int(busy):
@@ -552,7 +614,9 @@ def monitor_spi(D, p, pol, phase, stim, rows):
             start, complete = t + 1, 0
             captures += 1
     # pass 2: chip-select windows
-    stats = {"windows": 0, "judged": 0, "skipped": 0, "words": 0, "full": 0, "captures": captures, "over": 0}
+    stats = {"windows": 0, "judged": 0, "skipped": 0, "words": 0, "full": 0, "captures": captures, "over": 0,
+             "judged_recap": 0, "judged_reread": 0, "trig_in_window": 0, "full_recap": 0}
+    windows_of_capture = {}       # capture number -> chip-select windows opened since it started
     t = 0
     while t < L:
         if stim[t][4] and (t == 0 or not stim[t - 1][4]):
@@ -566,10 +630,18 @@ def monitor_spi(D, p, pol, phase, stim, rows):
             ok = ok and not any(disturbed[u] for u in range(max(0, rise - 2), fall))
             ok = ok and stim[rise][2] == sample_level and stim[rise - 1][2] == sample_level
             ok = ok and captures > 0 and rows[rise][1] == 1
+            nth_window = windows_of_capture.get(cap_at[rise], 0)
+            windows_of_capture[cap_at[rise]] = nth_window + 1
+            if fall < L and cap_at[fall] != cap_at[rise]:
+                stats["trig_in_window"] += 1          # a trigger was accepted inside the window (not blocked by the wrapper)
             if not ok:
                 stats["skipped"] += 1
             else:
                 stats["judged"] += 1
+                if cap_at[rise] >= 2:
+                    stats["judged_recap"] += 1        # a read-out of the second / a later capture of the history
+                if nth_window >= 1:
+                    stats["judged_reread"] += 1       # not the first window since that capture
                 expected = mem_at[rise]
                 bits = []
                 for u in range(rise + 1, fall):
@@ -590,6 +662,8 @@ def monitor_spi(D, p, pol, phase, stim, rows):
                     stats["words"] += 1
                 if nwords >= D:
                     stats["full"] += 1
+                    if cap_at[rise] >= 2:
+                        stats["full_recap"] += 1
             t = fall
         else:
             t += 1
@@ -604,7 +678,11 @@ def run_spi_case(desc):
     sigs = [Signal(w, name="probe%d" % j) for j, w in enumerate(WIDTHS)]
     dut = SyncSerialILA(signals=sigs, sample_depth=D, samples_pretrigger=p, domain=dom, clock_polarity=pol,
                         clock_phase=phase)
-    stim = desc.get("stimulus") or make_spi_stimulus(D, p, pol, phase, Rng(desc["seed"]), desc.get("k", 0))
+    if desc.get("stale_demo"):
+        stim = desc.get("stimulus") or make_stale_demo(pol, phase, Rng(desc["seed"]))
+    else:
+        stim = desc.get("stimulus") or make_spi_stimulus(D, p, pol, phase, Rng(desc["seed"]), desc.get("k", 0),
+                                                         desc.get("multi", 0))
     stim = [[r[0] & 1, r[1] & ((1 << TOTAL) - 1), r[2] & 1, r[3] & 1, r[4] & 1] for r in stim]
     sim_rows = []
     for r in stim:
@@ -622,7 +700,22 @@ def run_spi_case(desc):
         tags += ["p-judged-window" if stats["judged"] else "p-no-judged-window",
                  "p-skipped-window" if stats["skipped"] else "p-no-skipped-window",
                  "p-full-readout" if stats["full"] else "p-no-full-readout",
-                 "p-read-past-depth" if stats["over"] else "p-not-past-depth"]
+                 "p-read-past-depth" if stats["over"] else "p-not-past-depth",
+                 "p-judged-later-capture" if stats["judged_recap"] else "p-judged-first-capture-only",
+                 "p-full-readout-later-capture" if stats["full_recap"] else "p-no-full-readout-later-capture",
+                 "p-judged-reread" if stats["judged_reread"] else "p-no-judged-reread",
+                 "p-trigger-accepted-in-window" if stats["trig_in_window"] else "p-no-trigger-in-window"]
+        if desc.get("multi"):
+            tags.append("p-multi-capture-case")
+    if desc.get("stale_demo") and len(stim) >= 140:
+        # observation, not a judgement: what the controller reads in the window that contains the accepted trigger
+        sl = pol if phase else 1 - pol
+        bits = [rows[u][2] for u in range(1, len(stim)) if stim[u][4] and stim[u][2] == sl and stim[u - 1][2] != sl]
+        words = [int("".join(map(str, bits[32 * i:32 * i + 32])), 2) for i in range(len(bits) // 32)]
+        if words[:2] == [stim[3][1], stim[13][1]]:
+            tags.append("p-stale-word-observed")      # sample 0 of capture 1, then sample 1 of capture 2
+        else:
+            tags.append("p-stale-demo-other")
     return Case([2, D, p, dut.bits_per_word, pol, phase], stim, rows, fails, tags, desc,
                 ["trigger", "inputs", "spi.sck", "spi.sdi", "spi.cs"], ["sampling", "complete", "spi.sdo"])
 
